@@ -19,7 +19,7 @@ import time
 VERIF = os.path.dirname(os.path.dirname(os.path.abspath(__file__)))
 REPO = os.environ.get('IPR_REPO', '/repo')
 SCANNER = os.path.join(VERIF, 'bin', 'iprscan')
-CACHE = os.path.join(VERIF, '.cache')
+CACHE = os.environ.get('VERIF_CACHE_DIR') or os.path.join(VERIF, '.cache')
 RESOURCE_DIR = '/usr/lib/llvm-14/lib/clang/14.0.6'
 
 
